@@ -242,25 +242,38 @@ where
     R: tokio::io::AsyncRead + Unpin,
 {
     let mut interval = tokio::time::interval(tokio::time::Duration::from_millis(FLUSH_INTERVAL_MS));
+    // Holds the line currently being read. It lives across iterations because the flush
+    // tick can cancel `read_until` in the middle of a line; the bytes read so far are
+    // already in this buffer and the next call continues the same line.
+    let mut buf = Vec::new();
     loop {
         let mut bufs = Vec::new();
         loop {
-            let mut buf = Vec::new();
             tokio::select! {
                 _ = token.cancelled() => {
+                    if !buf.is_empty() {
+                        bufs.push(std::mem::take(&mut buf));
+                    }
                     process_bufs(&header, bufs, &compressor_client, &mut log_stream_client, true).await?;
                     return Err(MonorailError::TaskCancelled);
                 }
                 res = reader.read_until(b'\n', &mut buf) => {
                     match res {
                         Ok(0) => {
+                            // end of stream; keep a final line that was not newline-terminated
+                            if !buf.is_empty() {
+                                bufs.push(std::mem::take(&mut buf));
+                            }
                             process_bufs(&header, bufs, &compressor_client, &mut log_stream_client, true).await?;
                             return Ok(());
                         },
                         Ok(_n) => {
-                            bufs.push(buf);
+                            bufs.push(std::mem::take(&mut buf));
                         }
                         Err(e) => {
+                            if !buf.is_empty() {
+                                bufs.push(std::mem::take(&mut buf));
+                            }
                             process_bufs(&header, bufs, &compressor_client, &mut log_stream_client, true).await?;
                             return Err(MonorailError::from(e));
                         }
